@@ -381,6 +381,61 @@ func propC19(c *Ctx) {
 			runPurityCase(c, f, [][]binding{{{"a", av}, {"b", evalVarValues[c.Rng.Intn(len(evalVarValues))]}}, {{"a", vInt(1)}, {"b", av}}}, 4)
 		}
 	}
+	// collections that hold a name TWICE (the first one added wins), interleaved with collections of another layout in which that
+	// name sits where the later duplicate sits in the first
+	dupT := []binding{{"a", vInt(1)}, {"b", vInt(2)}, {"A", vInt(5)}, {"B", vInt(50)}}
+	other := []binding{{"x", vInt(9)}, {"zz", vInt(8)}, {"a", vInt(7)}, {"b", vInt(3)}}
+	third := []binding{{"b", vInt(4)}, {"a", vInt(6)}}
+	for _, e := range []string{"a + b", "a", "b * 10 + a", "Max(a, b)", "a + a + b"} {
+		runPurityCase(c, e, [][]binding{dupT, other, dupT, third, dupT}, 4)
+		runPurityCase(c, e, [][]binding{other, dupT, third, dupT}, 0)
+	}
+	// … and the same for function tables handed to the evaluation: a table that holds a name twice, interleaved with others
+	{
+		mkF := func(name string, k int) functions.IFunction {
+			return functions.NewDelegatedFunction(name, func(p []*variants.Variant, o variants.IVariantOperations) (*variants.Variant, error) {
+				return variants.VariantFromInteger(k), nil
+			})
+		}
+		tbl := func(layout string) *functions.FunctionCollection {
+			fc := functions.NewFunctionCollection()
+			switch layout {
+			case "T": // F first = 10, a later duplicate = 20
+				fc.Add(mkF("F", 10))
+				fc.Add(mkF("G", 1))
+				fc.Add(mkF("f", 20))
+			case "O": // another layout: F where the duplicate sits in T
+				fc.Add(mkF("H", 7))
+				fc.Add(mkF("G", 2))
+				fc.Add(mkF("F", 30))
+			default:
+				fc.Add(mkF("G", 3))
+				fc.Add(mkF("F", 40))
+			}
+			return fc
+		}
+		wantOf := map[string]string{"T": "ok i11", "O": "ok i32", "P": "ok i43"}
+		for _, seq := range []string{"TTOT", "OTPT", "TOTOT", "PTTO"} {
+			op := "ftdup " + seq
+			c.record(op, true)
+			c.count("function-table-duplicates")
+			note := ""
+			st := safeCall(func() string {
+				calc := calculator.NewExpressionCalculator()
+				calc.SetExpression("F() + G()")
+				for i, l := range seq {
+					if got := outcome(calc.EvaluateUsingVariablesAndFunctions(nil, tbl(string(l)))); got != wantOf[string(l)] {
+						note = fmt.Sprintf("step %d of the table sequence %s (table %c: the FIRST function called F wins): F() + G() gives %s, expected %s", i, seq, l, got, wantOf[string(l)])
+						return ""
+					}
+				}
+				return ""
+			})
+			if st != "" || note != "" {
+				c.fail(Failure{Kind: "oracle", Op: op, Impl: st, Note: note})
+			}
+		}
+	}
 	// names resolved case-insensitively: collections whose keys differ only in letter case, rendered alternately
 	for _, src := range []string{"Hello, {{NAME}}!", "{{#naMe}}{{Name}}{{/naMe}}|{{{NAME}}}", "{{^NAME}}none{{/NAME}}{{name}}"} {
 		runTplPurity(c, src, []map[string]string{{"Name": "Bob", "name": "Carol"}, {"name": "Alice"}, {"NAME": "Z", "Name": "Y"}, {"nAME": ""}}, 8)
